@@ -117,14 +117,36 @@ pub(crate) mod verif_common {
 
     impl<const N: usize> Read for Src<N> {
         fn read(&mut self, b: &mut [u8]) -> Result<usize> {
-            let n = core::cmp::min(b.len(), self.len - self.pos);
+            self.reads += 1;
+            // straight-line fast paths for the 1/2/4-byte reads the parsers issue (the destination length is a
+            // constant at those call sites, so only one arm survives; the generic loop below was unrolled 1900 times in
+            // one XZ harness because the count comes out of a RefCell and is not constant-folded)
+            let left = self.len - self.pos;
+            if b.len() == 1 {
+                if left == 0 {
+                    return Ok(0);
+                }
+                b[0] = self.buf[self.pos];
+                self.pos += 1;
+                return Ok(1);
+            }
+            if (b.len() == 2 || b.len() == 4) && left >= b.len() {
+                b[0] = self.buf[self.pos];
+                b[1] = self.buf[self.pos + 1];
+                if b.len() == 4 {
+                    b[2] = self.buf[self.pos + 2];
+                    b[3] = self.buf[self.pos + 3];
+                }
+                self.pos += b.len();
+                return Ok(b.len());
+            }
+            let n = core::cmp::min(b.len(), left);
             let mut i = 0;
             while i < n {
                 b[i] = self.buf[self.pos + i];
                 i += 1;
             }
             self.pos += n;
-            self.reads += 1;
             Ok(n)
         }
         fn read_exact(&mut self, b: &mut [u8]) -> Result<()> {
